@@ -337,8 +337,12 @@ SubscribeOnlyIfConfigured(e, cfg) == Cbs(e, "SubscribeForTxs") # {} => cfg.maxTp
 \* C14 Time enters only through the injected timer
 TruncDiv(a, b) == IF a >= 0 THEN a \div b ELSE -((-a) \div b)
 \* the round-trip average moves only by a sample measured on the injected clock (wall-clock leaks show here)
+\* virtual runs stay far below 10^9 ns: anything larger cannot come from the injected clock (and would overflow TLC's integers)
+Sane(s) == s.started => /\ s.rttAvg < 1000000000 /\ s.rttOld < 1000000000 /\ s.timer.due < 2000000000 /\ s.timer.d < 1000000000
+                        /\ s.ts < 2000000000 /\ s.lbTs < 2000000000 /\ s.lbTime < 2000000000 /\ s.sentAt < 2000000000
 RttVirtual(e, pre) ==
   (pre.started /\ e.post.started /\ e.call \notin {"Start", "Reset"} /\ e.post.rttAvg # pre.rttAvg) =>
+     /\ Sane(pre) /\ Sane(e.post)
      /\ pre.sentAt >= 0
      /\ LET t == e.now - pre.sentAt
             tt == IF pre.rttOld # 0 /\ t > 2 * pre.rttOld THEN 2 * pre.rttOld ELSE t
@@ -553,7 +557,7 @@ Step ==
          cfg == IF "cfg" \in DOMAIN e THEN e.cfg ELSE cfgs[e.n]
          V == StepViolations(e, pre, cfg)
          conf == IF ~CheckConformance \/ e.panic # "" THEN "off"
-                 ELSE IF TooManyOrders(pre, e) THEN "skipped"
+                 ELSE IF TooManyOrders(pre, e) \/ ~Sane(pre) \/ ~Sane(e.post) THEN "skipped"
                  ELSE IF Conforms(e, pre, cfg) THEN "ok" ELSE "diverged"
      IN /\ \A x \in V : Report(e, x)
         /\ conf = "diverged" => Diverge(e) /\ (DebugOn => DivergeDetail(e, pre, cfg))
